@@ -442,14 +442,16 @@ class Event:
 
 
 class Frame:
-    __slots__ = ("fn", "cells", "bb", "visits", "dest", "ret_bb", "fid")
+    __slots__ = ("fn", "cells", "bb", "visits", "dest", "ret_bb", "fid", "then", "final")
 
     def __init__(self, fn, cells, fid):
         self.fn, self.cells, self.bb, self.visits, self.dest, self.ret_bb, self.fid = fn, cells, 0, {}, None, None, fid
+        self.then = ()        # further (fn, args) invocations to run after this frame returns (summary 'invoke_seq')
+        self.final = None     # value written to dest after the last invocation (None: the last return value)
 
     def clone(self):
         f = Frame(self.fn, self.cells, self.fid)
-        f.bb, f.visits, f.dest, f.ret_bb = self.bb, dict(self.visits), self.dest, self.ret_bb
+        f.bb, f.visits, f.dest, f.ret_bb, f.then, f.final = self.bb, dict(self.visits), self.dest, self.ret_bb, self.then, self.final
         return f
 
 
@@ -1131,6 +1133,14 @@ class Engine:
             return self.end(st, "return")
         st.frames.pop()
         caller = st.frames[-1]
+        if fr.then:
+            (nfn, nargs), rest = fr.then[0], fr.then[1:]
+            nf = self.new_frame(st, nfn, nargs)
+            nf.dest, nf.ret_bb, nf.then, nf.final = fr.dest, fr.ret_bb, rest, fr.final
+            st.frames.append(nf)
+            return [st]
+        if fr.final is not None:
+            rv = fr.final
         if fr.dest is not None:
             self.write_place(st, fr.dest, rv)
         if fr.ret_bb is None:
@@ -1153,6 +1163,27 @@ class Engine:
                 return r
         fr.bb = t[2]
         return [st]
+
+    def canon(self, st, v, depth=0):
+        """canonical text of a symbolic value"""
+        if depth > 4:
+            return "?"
+        if isinstance(v, Ref):
+            try:
+                return self.canon(st, self.load(st, v.cell, v.path), depth + 1)
+            except Inconclusive:
+                return "&" + str(v.cell)
+        if isinstance(v, Lazy):
+            return v.name
+        if isinstance(v, (Int, Bool)):
+            return str(z3.simplify(v.t))
+        if isinstance(v, Agg):
+            if v.base and not v.fields:
+                return v.base
+            return "%s{%s}" % (type_base(v.ty), ",".join("%s:%s" % (k, self.canon(st, x, depth + 1)) for k, x in sorted(v.fields.items(), key=lambda kv: str(kv[0]))))
+        if isinstance(v, EnumV):
+            return "%s(%s)" % (v.variant, ",".join(self.canon(st, x, depth + 1) for x in v.fields.values()))
+        return repr(v)[:40]
 
     def havoc_refs(self, st, args, callee):
         """A havocked callee may write through every `&mut` it receives (also inside tuples / structs)."""
@@ -1204,6 +1235,14 @@ class Engine:
                     nf.dest, nf.ret_bb = dest, ret_bb
                     st.frames.append(nf)
                     return [st]
+                if isinstance(res, tuple) and len(res) == 3 and res[0] == "invoke_seq":
+                    calls, final = res[1], res[2]
+                    if not calls:
+                        return self.finish_call(st, dest, ret_bb, final)
+                    nf = self.new_frame(st, calls[0][0], calls[0][1])
+                    nf.dest, nf.ret_bb, nf.then, nf.final = dest, ret_bb, tuple(calls[1:]), final
+                    st.frames.append(nf)
+                    return [st]
                 return self.finish_call(st, dest, ret_bb, res)
         # 2. inline crate-local
         target = self.prog.resolve_call(callee, fr.fn)
@@ -1215,11 +1254,12 @@ class Engine:
             nf.dest, nf.ret_bb = dest, ret_bb
             st.frames.append(nf)
             return [st]
-        # 3. havoc + event
+        # 3. havoc + event (the arguments' canonical text is taken before `&mut` targets are havocked)
         self.stats["havoc"] += 1
         rv = self.make_lazy(st.fresh(norm.split("::")[-1]), dest_ty)
         st.events.append(Event("call", norm, tuple(args), rv, len(st.pc), self.site(st),
-                               {"resolved": target.name if target is not None else None}))
+                               {"resolved": target.name if target is not None else None,
+                                "args": [self.canon(st, a) for a in args]}))
         self.havoc_refs(st, args, norm)
         return self.finish_call(st, dest, ret_bb, [(None, rv)])
 
